@@ -831,6 +831,56 @@ def _fn_params(fn):
     return ps
 
 
+def _raise_if_shape(body):
+    """Top-level statements of a guard function as strings: `raise-if <test>` for
+    `if <test>: …; raise …` without else, `other <stmt class>` for anything else (an early
+    `return`, an assignment, a loop …)."""
+    out = []
+    for st in strip_doc(body):
+        if isinstance(st, ast.If) and not st.orelse and st.body and isinstance(st.body[-1], ast.Raise) \
+                and all(isinstance(x, (ast.Assign, ast.AnnAssign, ast.Raise)) for x in st.body):
+            out.append("raise-if " + ast.unparse(st.test))
+        else:
+            out.append("other " + type(st).__name__)
+    return out
+
+
+def value_guard_info(tree, classes):
+    """What `MetadorGroup.__setitem__` refuses by the class of the value (the leading
+    `if <isinstance test of the value against a module-level list of classes>: raise`
+    statements), and the statements of `MetadorNode._guard_path` (the guard every wrapped method
+    relies on)."""
+    class_lists = {}
+    for n in tree.body:
+        tgt = val = None
+        if isinstance(n, ast.Assign) and len(n.targets) == 1 and isinstance(n.targets[0], ast.Name):
+            tgt, val = n.targets[0].id, n.value
+        elif isinstance(n, ast.AnnAssign) and isinstance(n.target, ast.Name) and n.value is not None:
+            tgt, val = n.target.id, n.value
+        if tgt and isinstance(val, (ast.List, ast.Tuple, ast.Set)) and val.elts and all(isinstance(e, (ast.Attribute, ast.Name)) for e in val.elts):
+            class_lists[tgt] = [e.attr if isinstance(e, ast.Attribute) else e.id for e in val.elts]
+    si = find_func(classes["MetadorGroup"], "__setitem__")
+    refused, tested = [], []
+    if si is not None:
+        params = [a.arg for a in si.args.args]
+        for st in strip_doc(si.body):
+            # leading refusals only: the first statement of another shape ends the prefix
+            if not (isinstance(st, ast.If) and not st.orelse and st.body and isinstance(st.body[-1], ast.Raise)):
+                break
+            names = {x.id for x in ast.walk(st.test) if isinstance(x, ast.Name)}
+            lists = [nm for nm in class_lists if nm in names]
+            if not ("isinstance" in names and len(params) >= 3 and params[2] in names and lists):
+                break
+            for nm in lists:
+                tested.append(nm)
+                refused += [c for c in class_lists[nm] if c not in refused]
+    gp = find_func(classes["MetadorNode"], "_guard_path")
+    if gp is None:
+        raise TranslateError("MetadorNode._guard_path not found")
+    return dict(refTypes=refused, testedLists=tested, setitemValueTestFirst=bool(tested), guardPathStmts=_raise_if_shape(gp.body),
+                guardPathParams=[a.arg for a in gp.args.args[1:]])
+
+
 def group_method_table():
     """Method table of the wrapper classes of container/wrappers.py (ast) + pass-through
     dunder methods of wrapt.ObjectProxy that MetadorGroup does not override (inspect)."""
@@ -915,11 +965,17 @@ def group_method_table():
     ci = getattr_info.get("MetadorContainer")
     container_only_supported = (ci is None) or (ci["raw_returns"] <= 1 and ci["returns"] == ci["raw_returns"] + ci["super_returns"])
     return dict(methods=methods, protocol=proto, passthrough=passthrough, groupGetattrRefuses=group_refuses,
-                containerSupported=supported, containerGetattrWhitelisted=bool(container_only_supported))
+                containerSupported=supported, containerGetattrWhitelisted=bool(container_only_supported),
+                valueGuards=value_guard_info(tree, classes))
 
 
 def _ls(l):
     return "[" + ", ".join('"%s"' % x for x in l) + "]"
+
+
+def _lsq(l):
+    """Lean list of string literals with escaping (source text)"""
+    return "[" + ", ".join('"%s"' % x.replace("\\", "\\\\").replace('"', '\\"') for x in l) + "]"
 
 
 def gen_group_methods():
@@ -964,6 +1020,13 @@ def gen_group_methods():
     out.append("/-- `MetadorContainer.__getattr__` forwards exactly the names in `_self_SUPPORTED` -/")
     out.append("def containerGetattrWhitelisted : Bool := %s" % ("true" if t["containerGetattrWhitelisted"] else "false"))
     out.append("def containerSupported : List String := %s\n" % _ls(t["containerSupported"]))
+    vg = t["valueGuards"]
+    out.append("/-- classes in %s: values of these classes are refused by the leading\n    `if <isinstance test>: raise` statements of `MetadorGroup.__setitem__` -/" % ", ".join("`%s`" % x for x in vg["testedLists"]))
+    out.append("def refusedValueTypes : List String := %s\n" % _ls(vg["refTypes"]))
+    out.append("/-- `MetadorGroup.__setitem__` starts with such a test -/")
+    out.append("def setitemValueTestFirst : Bool := %s\n" % ("true" if vg["setitemValueTestFirst"] else "false"))
+    out.append("/-- top-level statements of `MetadorNode._guard_path(self, %s)` -/" % ", ".join(vg["guardPathParams"]))
+    out.append("def guardPathStmts : List String := %s\n" % _lsq(vg["guardPathStmts"]))
     out.append("end MetadorModel.Gen\n")
     return "\n".join(out)
 
